@@ -84,11 +84,88 @@ package upstream
 //@   ensures[no-remote] !allowForward && result1 ==> !result0.Forward()
 //@ iface (Manager).RemoveConn
 //@   acquires 10
-//@   modifies-all $gRemoved
+//@   modifies-all $gRemoved $gUpRemoved $gUpRemovedU
 //@   ghost-set gRemoved = true
-//@ iface (Manager).AddConn
-//@   acquires 10
+//@   ghost-set gUpRemoved = true
+//@   ghost-set gUpRemovedU = u
 //@ iface (Upstream).Dial
 //@   modifies-all $gDialed $gDialedUpstream
 //@   ghost-set gDialed = true
 //@   ghost-set gDialedUpstream = self
+
+// ---------------------------------------------------------------------------
+// The upstream handler (C16, C10, C01): typestate of one connection.
+//   gUpAdded/gUpAddedU    AddConn was called with this upstream
+//   gUpRemoved            RemoveConn was called
+//   gTracked/gUntracked   the session was put in / taken out of the session table
+//   gSessClosed/gConnClosed
+//   gDeadlineSet/gDeadline the accept context carries this deadline
+//   gAccepted/gAcceptErr  the last AcceptStreamWithContext result
+
+//@ ghost gUpAdded bool
+//@ ghost gUpAddedU Upstream
+//@ ghost gUpRemoved bool
+//@ ghost gUpRemovedU Upstream
+//@ ghost gTracked bool
+//@ ghost gUntracked bool
+//@ ghost gSessClosed bool
+//@ ghost gConnClosed bool
+//@ ghost gDeadlineSet bool
+//@ ghost gDeadline time.Time
+//@ ghost gAccepted bool
+//@ ghost gAcceptErr error
+
+//@ extern github.com/gin-gonic/gin.(*Context).ClientIP
+//@ extern github.com/gorilla/websocket.(*Conn).Close
+//@   modifies-all $gConnClosed
+//@   ghost-set gConnClosed = true
+//@ extern context.WithDeadline
+//@   modifies-all $gDeadlineSet $gDeadline
+//@   ghost-set gDeadlineSet = true
+//@   ghost-set gDeadline = d
+//@ extern github.com/andydunstall/yamux.DefaultConfig
+//@   ensures[nonnil] result != nil && fresh(result)
+//@ extern github.com/andydunstall/yamux.Server
+//@   ensures[env-valid-config] result1 == nil && result0 != nil
+//@ extern github.com/andydunstall/yamux.(*Session).Close
+//@   modifies-all $gSessClosed
+//@   ghost-set gSessClosed = true
+//@ extern github.com/andydunstall/yamux.(*Session).AcceptStreamWithContext
+//@   modifies-all $gAccepted $gAcceptErr
+//@   ghost-set gAccepted = true
+//@   ghost-set gAcceptErr = result1
+
+//@ iface (Manager).AddConn
+//@   acquires 10
+//@   requires[local] u != nil && !u.Forward()
+//@   modifies-all $gUpAdded $gUpAddedU
+//@   ghost-set gUpAdded = true
+//@   ghost-set gUpAddedU = u
+
+//@ contract (*Server).addSession
+//@   serves C16 C19 C20
+//@   ghost-set gTracked = true
+//@   ensures[tracked] sess in s.sessions
+//@ contract (*Server).removeSession
+//@   serves C16 C19 C20
+//@   ghost-set gUntracked = true
+//@   ensures[untracked] !(sess in s.sessions)
+
+//@ nonnil Server.websocketUpgrader Server.ctx
+//@ noop (*Server).panicRoute
+
+//@ contract (*Server).upstreamRoute
+//@   serves C16 C10 C01 C20
+//@   requires[context] c != nil && c.Request != nil && c.Writer != nil
+//@   requires[fresh-step] !gUpAdded && !gUpRemoved && !gTracked && !gUntracked && !gSessClosed && !gConnClosed && !gWrote && !gUpgraded && !gDeadlineSet && !gAccepted
+//@   let ep = ginParam(c, "endpointID")
+//@   ensures[released] gUpAdded ==> gUpRemoved && gUpRemovedU == gUpAddedU && gUntracked && gSessClosed && gConnClosed
+//@   ensures[closed] gUpgraded && gTracked ==> gUntracked && gSessClosed && gConnClosed
+//@   ensures[registered-id] gUpAdded ==> gUpAddedU != nil && gUpAddedU.EndpointID() == ep && !gUpAddedU.Forward()
+//@   ensures[permitted] gUpAdded && gTokOk ==> permitted(unbox(gTok, "*auth.Token"), ep)
+//@   ensures[401] gTokOk && !permitted(unbox(gTok, "*auth.Token"), ep) ==> gWrote && gStatus == 401 && !gUpgraded && !gUpAdded
+//@   ensures[expiry] gUpAdded ==> (gDeadlineSet == (gTokOk && !unbox(gTok, "*auth.Token").Expiry.IsZero())) && (gDeadlineSet ==> gDeadline == unbox(gTok, "*auth.Token").Expiry)
+//@   loop 1 invariant[continue-only-on-success] gAccepted ==> gAcceptErr == nil
+//@   loop 1 invariant[registered] gUpAdded && gTracked && !gUpRemoved && !gUntracked && !gSessClosed && !gConnClosed && gUpgraded
+//@   loop 1 invariant[registered-id] gUpAddedU != nil && gUpAddedU.EndpointID() == ep && !gUpAddedU.Forward() && (gTokOk ==> permitted(unbox(gTok, "*auth.Token"), ep))
+//@   loop 1 invariant[expiry] (gDeadlineSet == (gTokOk && !unbox(gTok, "*auth.Token").Expiry.IsZero())) && (gDeadlineSet ==> gDeadline == unbox(gTok, "*auth.Token").Expiry)
